@@ -79,9 +79,17 @@ class PropGen12:
         s = self.sim
         evs = []
         aliases = []
+        shared = None
+        if may_alias and width > 1 and s.coin('sharedalias?', 0.3):
+            # every alternative binds the same name: legal, and later events may refer to it
+            self.acount += 1
+            shared = 'S%d' % self.acount
+            aliases.append(shared)
         for tp in self.take_topics(width):
             alias = None
-            if may_alias and width == 1 and s.coin('alias?', 0.5):
+            if shared is not None:
+                alias = shared
+            elif may_alias and width == 1 and s.coin('alias?', 0.5):
                 # aliases are only bound on simple events: a reference to an alias bound inside a
                 # split disjunction makes canonical_form refuse the property (C11/C14, not C12)
                 self.acount += 1
@@ -258,6 +266,7 @@ def simulate(sim, pdesc, cfg, on_deliver):
     bus = Bus(sim, fc, on_deliver)
     b = bound if bound is not None else sim.pick('pseudo_bound', (1, 50, 100, 1000))
     horizon = sim.pick('horizon', (400, 2000, 6000, 20000))
+    busy = sim.coin('busy', 0.3)  # a share of the runs has every publisher talk a lot
     # periodic / bursty publishers
     for tp in used + extra[:sim.choose('nextra', 3)]:
         mode = sim.weighted('pubmode', [(4, 'periodic'), (2, 'bursty'), (1.5, 'rare'), (0.7, 'silent')])
@@ -265,6 +274,8 @@ def simulate(sim, pdesc, cfg, on_deliver):
             continue
         period = {'periodic': sim.pick('per', (7, 40, 130, 500)), 'bursty': sim.pick('perb', (1, 2, 5)), 'rare': sim.pick('perr', (800, 2500))}[mode]
         count = {'periodic': sim.randint('cntp', 3, 16), 'bursty': sim.randint('cntb', 2, 9), 'rare': sim.randint('cntr', 1, 3)}[mode]
+        if busy:
+            count *= 3
         start = sim.randint('start', 0, max(1, horizon // 6))
 
         def tick(tp=tp, period=period, left=[count]):
@@ -317,16 +328,46 @@ def simulate(sim, pdesc, cfg, on_deliver):
 ###############################################################################
 
 
+def renest_left(event):
+    """The grammar only writes right-nested disjunctions; through the API the same alternatives can
+    be nested to the left. Same meaning, different tree shape for simple_events() to walk."""
+    if event is None:
+        return None
+    alts = list(event.simple_events())
+    if len(alts) < 3:
+        return event
+    from hpl.ast.events import HplEventDisjunction
+    acc = HplEventDisjunction(alts[0], alts[1])
+    for a in alts[2:]:
+        acc = HplEventDisjunction(acc, a)
+    return acc
+
+
+def rebuild_through_api(ast):
+    scope = ast.scope
+    if scope.terminator is not None:
+        scope = scope.but(terminator=renest_left(scope.terminator))
+    pat = ast.pattern
+    kw = {'behaviour': renest_left(pat.behaviour)}
+    if pat.trigger is not None:
+        kw['trigger'] = renest_left(pat.trigger)
+    pat = pat.but(**kw)
+    return ast.but(scope=scope, pattern=pat)
+
+
 class Judge:
     """Holds P and its canonical form as monitor objects; checks a prefix."""
 
-    def __init__(self, text):
+    def __init__(self, text, renest=False):
         from hpl.rewrite import canonical_form
         self.ast = build.parser('property').parse(text)
+        if renest:
+            self.ast = rebuild_through_api(self.ast)
         self.parts_ast = canonical_form(self.ast)
         self.P = monitor.Prop(self.ast)
         self.parts = [monitor.Prop(p) for p in self.parts_ast]
-        self.split = len(self.parts) > 1 or self.parts_ast[0] is not self.ast
+        # an empty canonical form is a conjunction of nothing: satisfied by every trace
+        self.split = len(self.parts) != 1 or self.parts_ast[0] is not self.ast
 
     def check(self, trace):
         """None or (reading, sat(P), [sat(Pi)])"""
@@ -357,9 +398,12 @@ def run_one(seed, cfg, stats):
     text = gen.render_property(pdesc)
     shape = (pdesc['scope'][0], pdesc['pattern'][0], len(topics_of(pdesc['pattern'][1])), len(topics_of(pdesc['pattern'][2])),
              len(topics_of(pdesc['scope'][2])), pdesc['pattern'][3] is not None)
+    renest = sim.coin('renest', 0.25)
+    from hpl.errors import HplSanityError
     try:
-        judge = Judge(text)
-    except Exception as e:
+        judge = Judge(text, renest)
+    except HplSanityError as e:
+        # canonical_form refuses some alias shapes (C11/C14 matter): counted, not judged
         count('refused')
         count('refused_' + type(e).__name__)
         return None, {'text': text, 'shape': shape, 'digest': sim.digest(), 'refused': True}
@@ -396,14 +440,14 @@ def run_one(seed, cfg, stats):
         (rd, sp, sq), n = viol[0]
         v = {'class': 'not-equivalent', 'detail': 'reading %s: property %s, canonical form %s (%d parts) on a history of %d messages' % (
             rd, 'satisfied' if sp else 'violated', ['satisfied' if x else 'violated' for x in sq], len(sq), n),
-            'text': text, 'trace': trace_to_json(bus.trace[:n]), 'bus_log': [list(e) for e in bus.log][:60], 'reading': rd}
+            'text': text, 'renest': renest, 'trace': trace_to_json(bus.trace[:n]), 'bus_log': [list(e) for e in bus.log][:60], 'reading': rd}
         return v, info
     return None, info
 
 
-def judge_trace(text, trace):
+def judge_trace(text, trace, renest=False):
     """Replay path: literal property text + literal history; no PRNG."""
-    judge = Judge(text)
+    judge = Judge(text, renest)
     for n in range(1, len(trace) + 1):
         r = judge.check(trace[:n])
         if r is not None:
@@ -458,14 +502,14 @@ def minimise(v):
 
     def fails(sub):
         try:
-            r, _n = judge_trace(text, sub)
+            r, _n = judge_trace(text, sub, v.get('renest', False))
         except Exception:
             return False
         return r is not None
 
     small = core.ddmin(trace, fails, budget=200)
     if fails(small):
-        r, n = judge_trace(text, small)
+        r, n = judge_trace(text, small, v.get('renest', False))
         out = dict(v)
         out['trace'] = trace_to_json(small[:n])
         out['detail'] = 'reading %s: property %s, canonical form %s on a history of %d messages (minimised from %d)' % (
@@ -475,13 +519,13 @@ def minimise(v):
 
 
 def make_replay(v):
-    return {'property': PROP, 'class': v['class'], 'detail': v['detail'], 'text': v['text'], 'trace': v['trace'],
+    return {'property': PROP, 'class': v['class'], 'detail': v['detail'], 'text': v['text'], 'renest': v.get('renest', False), 'trace': v['trace'],
             'bus_log_of_the_original_run': v.get('bus_log'), 'seed': v.get('seed'), 'pythonhashseed': os.environ.get('PYTHONHASHSEED'),
             'how_to_replay': '/venv/bin/python /verif/check.py C12 --replay <this file>'}
 
 
 def replay(doc):
-    r, n = judge_trace(doc['text'], trace_from_json(doc['trace']))
+    r, n = judge_trace(doc['text'], trace_from_json(doc['trace']), doc.get('renest', False))
     if r is None:
         return None
     return {'class': 'not-equivalent', 'detail': 'reading %s: property %s, canonical form %s after %d messages' % (
